@@ -40,7 +40,18 @@ def generate(seed, tier):
     faulty = rng.random() < 0.5
     ops = gen_dispatch_ops(rng, n_ops(spec), p_query=0.05, p_invalid=0.08 if faulty else 0.0, p_reset=0.04 if faulty else 0.0,
                            episodes=2 if rng.random() < 0.2 else 1)
-    return {"prop": PROP, "cfg": {"instance": spec, "filter": names, "filter_style": "callable", "observers": obs, "observers_fixed": True}, "ops": ops}
+    cfg = {"instance": spec, "filter": names, "filter_style": "callable", "observers": obs, "observers_fixed": True}
+    r = rng.random()
+    if r < 0.25:
+        # a second, independent dispatcher + updater is alive in the same process and advanced alternately
+        spec2 = gen_instance(rng, max_jobs=4, max_machines=4, max_ops=4, positive=True)
+        cfg["second"] = {"instance": spec2, "filter": [], "filter_style": "callable", "observers_fixed": True,
+                         "observers": [{"t": "residual", "builder": rng.choice(BUILDERS), "rm": True, "rj": True}]}
+        cfg["second_seed"] = rng.randrange(1 << 30)
+    elif r < 0.4:
+        # the updater is attached to a dispatcher that has already dispatched a few operations
+        cfg["late_after"] = rng.randint(1, 3)
+    return {"prop": PROP, "cfg": cfg, "ops": ops}
 
 
 class H(Hooks):
@@ -93,12 +104,84 @@ class H(Hooks):
         self.prev_removed = removed
 
 
+class Both(Hooks):
+    """Drives the main world's hooks and, after every op of the main world, one
+    seeded dispatch (sometimes a reset) of the second world with its own hooks."""
+
+    def __init__(self, h1, w2, h2, seed):
+        import random
+
+        self.h1, self.w2, self.h2 = h1, w2, h2
+        self.rng = random.Random(seed)
+        self.k = 0
+
+    def after(self, w, i, kind, info):
+        self.h1.after(w, i, kind, info)
+        w2 = self.w2
+        if w2.model.is_complete():
+            if self.rng.random() < 0.3:
+                w2.do_reset()
+                self.h2.after(w2, i, "reset", None)
+            return
+        if self.rng.random() < 0.05:
+            w2.do_reset()
+            self.h2.after(w2, i, "reset", None)
+            return
+        r = w2.resolve_dispatch(self.rng.randrange(64), self.rng.randrange(64), self.rng.randrange(2))
+        if r is None:
+            return
+        w2.do_dispatch(*r)
+        self.h2.after(w2, i, "dispatch", None)
+        w.ctx.probe("second_live_updater_stepped")
+
+
 def execute(case, ctx):
-    w = DWorld(case["cfg"], ctx)
-    if len(w.observers) != len(case["cfg"]["observers"]):
+    cfg = case["cfg"]
+    late = cfg.get("late_after")
+    if late:
+        # dispatch a few operations first, then attach the updater (and whatever it creates)
+        w = DWorld({**cfg, "observers": []}, ctx)
+        done = 0
+        for op in [o for o in case["ops"] if o[0] == "dispatch"][:late]:
+            r = w.resolve_dispatch(op[1], op[2], 0)
+            if r is None:
+                break
+            w.do_dispatch(*r)
+            done += 1
+        for ospec in cfg["observers"]:
+            if w.add_observer(ospec, owner="C17") is None:
+                return
+        ctx.probe("updater_attached_mid_history")
+        h = H(w)
+        # nothing is promised for the rest of the episode in which the updater was attached (the observers it
+        # relies on are only specified when subscribed from the start); from the next reset on the world must
+        # be indistinguishable from a fresh one, so the invariants are demanded from the first reset on
+        h.prev_removed = None
+        armed = False
+        orig_after = h.after
+
+        def after(wx, i, kind, info):
+            nonlocal armed
+            if kind == "reset":
+                armed = True
+            if armed:
+                orig_after(wx, i, kind, info)
+
+        h.after = after
+        run_ops(w, list(case["ops"]) + [["reset"]] + [o for o in case["ops"] if o[0] == "dispatch"], h)
+        return
+    w = DWorld(cfg, ctx)
+    if len(w.observers) != len(cfg["observers"]):
         return
     h = H(w)
     h.after(w, -1, "init", None)
+    if cfg.get("second"):
+        w2 = DWorld(cfg["second"], ctx)
+        if len(w2.observers) != 1:
+            return
+        h2 = H(w2)
+        run_ops(w, case["ops"], Both(h, w2, h2, cfg["second_seed"]))
+        return
     run_ops(w, case["ops"], h)
 
 
